@@ -42,6 +42,12 @@ func (f *ownFam) Setup(cfg M, rng *rand.Rand) {
 			die(2, "own: buy storage: %v", err)
 		}
 	}
+	// registered names held by a and b (a holds two, one of them primary): a MakePrimary by anybody else must not touch them
+	for _, r := range []struct{ who, name string; prim bool }{{"a", "alpha.jkl", true}, {"a", "spare.jkl", false}, {"b", "beta.jkl", false}} {
+		if _, err := f.c.Msg(f.c.Ctx, &rtypes.MsgRegisterName{Creator: f.c.Acct(r.who).S(), Name: r.name, Years: 1, Data: "{}", SetPrimary: r.prim}); err != nil {
+			die(2, "own: register %s: %v", r.name, err)
+		}
+	}
 	for _, m := range []string{"m1", "m2"} {
 		t := mkfile(m, []byte("own-data-"+m), 1024)
 		f.trees[m] = t
@@ -200,7 +206,7 @@ func (f *ownFam) Random(rng *rand.Rand) M {
 	case r < 66:
 		return M{"a": "updatefeed", "s": acc(), "n": []string{"f1", "f2"}[rng.Intn(2)], "d": val()}
 	case r < 72:
-		return M{"a": "makeprimary", "s": acc(), "n": []string{"alpha.jkl", "beta.jkl"}[rng.Intn(2)]}
+		return M{"a": "makeprimary", "s": acc(), "n": []string{"alpha.jkl", "beta.jkl", "spare.jkl", "nobody.jkl"}[rng.Intn(4)]}
 	case r < 78:
 		return M{"a": "blocksender", "s": acc(), "b": acc()}
 	case r < 84:
